@@ -82,7 +82,7 @@ fn partial_writes(rs: &RS, at: Option<usize>) -> bool {
 pub fn run(ctx: &mut RunCtx) {
     ctx.assume("label and relationship-type names interned by a failed statement are not logical content (they are invisible to every read interface of the dump)");
     ctx.assume("inside the explicit transaction the model applies the valid statements with sequential visibility (C24)");
-    let cases = ctx.tier.pick(60_000, 3_000_000);
+    let cases = ctx.tier.pick(150_000, 3_000_000);
     let test = |c: &Case, obs: &mut Obs| {
         let mut w = World::new()?;
         let none: BTreeSet<u32> = BTreeSet::new();
